@@ -313,15 +313,12 @@ func NewRig(cfg CacheCfg, x *Exec) *Rig {
 		r.Counter = stats.NewCounter()
 		o.StatsRecorder = r.Counter
 	}
-	if x != nil {
-		c, err := otter.VerifNew(o)
-		if err != nil {
-			panic(err)
-		}
-		r.C = c
-	} else {
-		r.C = otter.Must(o)
+	// VerifNew = New without runtime.AddCleanup (cleanups keep every explored cache alive for two more GC cycles)
+	c, err := otter.VerifNew(o)
+	if err != nil {
+		panic(err)
 	}
+	r.C = c
 	return r
 }
 
